@@ -434,6 +434,7 @@ class PathSummary:
         self.final = {}
         self.links = []
         self.rels = {}
+        self.relx = {}
         self.sides = {}
 
     def input(self, key, default=None):
@@ -1457,6 +1458,7 @@ def explore(facts, entry, make_args=None, opts=None, max_paths=20000, program=No
             s.links = it.link_audit()
             s.rels = {k: v[0] for k, v in it.rels.rel.items()}
             s.sides = dict(it.sides)
+            s.relx = dict(it.rels.rel)
             s.interp = None
         except Exception as ex:  # snapshot is best effort
             s.final = {"error": str(ex)}
